@@ -195,9 +195,14 @@ PLANS["C09"] = P(
     "model_checking",
     ["verify.lenient.time", "verify.accept", "scn.expect.reject", "scn.expect.claims", "scn.model.agrees"],
     [{"module": "MC_time", "quick": "MC_time_quick.cfg", "thorough": "MC_time.cfg", "timeout": {"quick": 300, "thorough": 900}}],
-    [{"driver": "replay", "scn": "MC_time", "args": {"n": 1600, "matrix": 1}}, {"driver": "rich", "args": {"n": 500, "depth": 2, "arbsel": 0, "time": 1}}],
-    [{"driver": "replay", "scn": "MC_time", "args": {"n": 100000, "matrix": 1}}, {"driver": "rich", "args": {"n": 20000, "depth": 3, "arbsel": 0, "time": 1}}],
+    # (the last driver runs against the deterministic-salt BUILD of the library: a verifier change guarded by that feature is
+    #  still a change of the verifier - seeded W7_3m2)
+    [{"driver": "replay", "scn": "MC_time", "args": {"n": 1600, "matrix": 1}}, {"driver": "rich", "args": {"n": 500, "depth": 2, "arbsel": 0, "time": 1}},
+     {"driver": "rich", "binary": "harness_mock", "args": {"n": 300, "depth": 2, "arbsel": 0, "time": 1}}],
+    [{"driver": "replay", "scn": "MC_time", "args": {"n": 100000, "matrix": 1}}, {"driver": "rich", "args": {"n": 20000, "depth": 3, "arbsel": 0, "time": 1}},
+     {"driver": "rich", "binary": "harness_mock", "args": {"n": 5000, "depth": 3, "arbsel": 0, "time": 1}}],
     required={"verify.lenient.time": 300, "verify.accept": 50, "scn.model.agrees": 500},
+    build=("harness", "harness_mock"),
     rule="cases = behaviours of MC_time: exp in {absent, null, string, negative, now-10y .. now+63y} x nbf in {absent, past, now+30s .. now+10y} x clock positions {0, +2h} "
          "x key binding {off, on}, replayed over the key matrix in both serializations with instants set relative to the wall clock read by the driver; the trace "
          "clauses use the logged interval [t0, t1]; instants between the two certain zones of the logged interval (exp in [t0-62, t1+2], nbf in [t0-2, t1+62]) are generated and not asserted; distinct = distinct (exp, nbf, clock, KB) tuples",
